@@ -57,76 +57,44 @@ const (
 // joinBindsRightShape visits every join written as `L <kw> JOIN r` where L is
 // an unparenthesised CROSS/NATURAL join and <kw> is INNER/LEFT/RIGHT.
 func joinBindsRightShape(q *ref.SelQuery, fix bool) bool {
-	if q == nil {
-		return false
-	}
 	found := false
 	var inSource func(s *ref.SelSource)
 	inSource = func(s *ref.SelSource) {
-		switch {
-		case s == nil:
-		case s.Kind == "sub":
-			if joinBindsRightShape(s.Sub, fix) {
-				found = true
-			}
-		case s.Kind == "join":
-			l := s.Left
-			kw := !s.Natural && (s.JoinType == "LEFT" || s.JoinType == "RIGHT" || (s.JoinType == "INNER" && s.InnerKw))
-			if kw && l.Kind == "join" && !l.Paren && (l.JoinType == "CROSS" || l.Natural) {
-				found = true
-				if fix {
-					l.Paren = true
-				}
-			}
-			inSource(s.Left)
-			inSource(s.Right)
+		if s == nil || s.Kind != "join" {
+			return
 		}
-	}
-	for _, s := range q.From {
-		inSource(s)
-	}
-	for _, c := range q.With {
-		if joinBindsRightShape(c.Query, fix) || joinBindsRightShape(c.Step, fix) {
+		l := s.Left
+		kw := !s.Natural && (s.JoinType == "LEFT" || s.JoinType == "RIGHT" || (s.JoinType == "INNER" && s.InnerKw))
+		if kw && l.Kind == "join" && !l.Paren && (l.JoinType == "CROSS" || l.Natural) {
 			found = true
+			if fix {
+				l.Paren = true
+			}
 		}
+		inSource(s.Left)
+		inSource(s.Right)
 	}
+	// every query: CTE bodies, subqueries in FROM, nested queries of expressions
+	eachQuery(q, func(x *ref.SelQuery) {
+		for _, s := range x.From {
+			inSource(s)
+		}
+	}, func(*ref.SelSource) {})
 	return found
 }
 
 // commaListDefectShape: some FROM list has an item that is neither the first
 // nor the last and is not a subquery.
 func commaListDefectShape(q *ref.SelQuery) bool {
-	if q == nil {
-		return false
-	}
-	for i := 1; i+1 < len(q.From); i++ {
-		if q.From[i].Kind != "sub" {
-			return true
+	found := false
+	eachQuery(q, func(x *ref.SelQuery) {
+		for i := 1; i+1 < len(x.From); i++ {
+			if x.From[i].Kind != "sub" {
+				found = true
+			}
 		}
-	}
-	var inSource func(s *ref.SelSource) bool
-	inSource = func(s *ref.SelSource) bool {
-		switch {
-		case s == nil:
-			return false
-		case s.Kind == "sub":
-			return commaListDefectShape(s.Sub)
-		case s.Kind == "join":
-			return inSource(s.Left) || inSource(s.Right)
-		}
-		return false
-	}
-	for _, s := range q.From {
-		if inSource(s) {
-			return true
-		}
-	}
-	for _, c := range q.With {
-		if commaListDefectShape(c.Query) || commaListDefectShape(c.Step) {
-			return true
-		}
-	}
-	return false
+	}, func(*ref.SelSource) {})
+	return found
 }
 
 // ---------------------------------------------------------------------
@@ -136,7 +104,8 @@ type selCase struct {
 	Tables []ref.SelTable `json:"tables"`
 	Query  *ref.SelQuery  `json:"query"`
 	CPU    int            `json:"cpu"`
-	SQL    string         `json:"sql"` // informational: the text csvq is given (re-rendered from Query by the check)
+	SQL    string         `json:"sql"`             // informational: the text csvq is given (re-rendered from Query by the check)
+	Limit  int            `json:"limit,omitempty"` // > 0: SET @@LIMIT_RECURSION TO <limit> before the query
 }
 
 // ---------------------------------------------------------------------
@@ -163,6 +132,23 @@ type genCtx struct {
 	maxDepth int
 	pending  []ref.SelCTE
 	hints    map[string][]val.Val
+
+	// extensions (all zero for the plain select check: no extra draws)
+	subPred   int  // % of predicate leaves that are nested-query predicates (EXISTS, IN, ANY/ALL, scalar comparison)
+	scalarFld int  // % of select-list items that are scalar subqueries
+	innerWith int  // % of subqueries that carry their own WITH clause
+	subWeight int  // weight of a subquery among the base sources (0: 24)
+	sources   bool // file tables are written in all their forms (name, `file`, format function, FILE::, INLINE::, STDIN)
+	predScope []ref.SelCol
+	predDepth int
+	wantOne   bool // the next select list has exactly one value field
+	nCTE      int
+	cteDepth  int    // nesting depth of the body of the next CTE (0: 1)
+	noComma3  bool   // no FROM a, b, c (from_comma_list_syntax_error is reported by the select check)
+	wherePct  int    // > 0: probability of a WHERE clause at every level
+	lateralPc int    // > 0: probability that a joined source is a LATERAL subquery (default 16)
+	cteName   string // name of the next CTE (shadowing), else c<n>
+	deepJoins bool   // nested queries keep joining (2-3 sources) instead of reading mostly one source
 }
 
 func (g *genCtx) setHint(view, name string, vs []val.Val) {
@@ -517,6 +503,9 @@ func (g *genCtx) pred(refs []colRef, depth int) *ref.SelExpr {
 		}
 		return &ref.SelExpr{Kind: "not", Args: []*ref.SelExpr{g.pred(refs, depth-1)}}
 	}
+	if g.subPred > 0 && g.predDepth < g.maxDepth && fw.Pct(g.t, "subPred", g.subPred) {
+		return g.subPredExpr(refs)
+	}
 	switch fw.Weighted(g.t, "leaf", []int{36, 20, 12, 12, 10, 10}) {
 	case 0:
 		a := g.operand(refs, true)
@@ -580,6 +569,9 @@ func (g *genCtx) base(depth int, preferCTE bool) (*ref.SelSource, []ref.SelCol, 
 	}
 	if depth < g.maxDepth {
 		wSub = 24
+		if g.subWeight > 0 {
+			wSub = g.subWeight
+		}
 	}
 	switch fw.Weighted(g.t, "baseKind", []int{60, wCTE, wSub}) {
 	case 1:
@@ -607,8 +599,12 @@ func (g *genCtx) base(depth int, preferCTE bool) (*ref.SelSource, []ref.SelCol, 
 	if tb.File {
 		s.Ext = fw.Pct(g.t, "ext", 25)
 	}
+	forceAlias := false
+	if g.sources && tb.File {
+		forceAlias = g.sourceForm(s, tb)
+	}
 	view := tb.Name
-	if g.used[tb.Name] || fw.Pct(g.t, "tableAlias", 65) {
+	if forceAlias || g.used[tb.Name] || fw.Pct(g.t, "tableAlias", 65) {
 		s.Alias, s.As = g.alias(), fw.Pct(g.t, "as", 40)
 		view = s.Alias
 	}
@@ -622,7 +618,10 @@ func (g *genCtx) base(depth int, preferCTE bool) (*ref.SelSource, []ref.SelCol, 
 }
 
 func (g *genCtx) subquery(depth int, outer []ref.SelCol, lateral bool) (*ref.SelSource, []ref.SelCol, map[string]int) {
+	inner, restore := g.innerCTEs(depth + 1)
 	q, labels := g.query(depth+1, outer, true)
+	q.With = inner
+	restore()
 	s := &ref.SelSource{Kind: "sub", Sub: q, Lateral: lateral, Alias: g.alias(), As: fw.Pct(g.t, "as", 40)}
 	cols := make([]ref.SelCol, len(labels))
 	for i, n := range labels {
@@ -675,6 +674,7 @@ func uniqueCommon(l, r []ref.SelCol) (eligible []string, naturalOK bool) {
 
 func (g *genCtx) joinCond(lcols, rcols, outer []ref.SelCol) *ref.SelExpr {
 	visible := concatCols(concatCols(lcols, rcols), outer)
+	g.predScope = visible
 	lrefs, rrefs := g.refsFor(lcols, visible), g.refsFor(rcols, visible)
 	all := append(append([]colRef{}, lrefs...), rrefs...)
 	if len(lrefs) == 0 || len(rrefs) == 0 {
@@ -720,7 +720,11 @@ func (g *genCtx) joinCond(lcols, rcols, outer []ref.SelCol) *ref.SelExpr {
 func (g *genCtx) fromItem(depth, n int, outer []ref.SelCol, preferCTE bool) (*ref.SelSource, []ref.SelCol, map[string]int) {
 	left, lcols, lviews := g.base(depth, preferCTE)
 	for i := 1; i < n; i++ {
-		lateral := depth < g.maxDepth && fw.Pct(g.t, "lateral", 16)
+		latPct := 16
+		if g.lateralPc > 0 {
+			latPct = g.lateralPc
+		}
+		lateral := depth < g.maxDepth && fw.Pct(g.t, "lateral", latPct)
 		var right *ref.SelSource
 		var rcols []ref.SelCol
 		var rviews map[string]int
@@ -758,6 +762,7 @@ func (g *genCtx) fromItem(depth, n int, outer []ref.SelCol, preferCTE bool) (*re
 			}
 			j.Using = names
 		case jk.typ != "CROSS":
+			g.predDepth = depth
 			j.On = g.joinCond(lcols, rcols, outer)
 		}
 		cols, _, _, _, err := ref.SelJoinCols(lcols, rcols, j.Natural, j.Using)
@@ -784,8 +789,9 @@ func hasDupJoinCol(cols []ref.SelCol) bool {
 
 // fields builds the select list. needLabels: every output column gets a
 // distinct, known name (subqueries and CTE bodies).
-func (g *genCtx) fields(cols []ref.SelCol, views map[string]int, outer []ref.SelCol, needLabels bool) ([]ref.SelField, []string) {
+func (g *genCtx) fields(cols []ref.SelCol, views map[string]int, outer []ref.SelCol, needLabels bool, one bool, depth int) ([]ref.SelField, []string) {
 	visible := concatCols(cols, outer)
+	g.predScope, g.predDepth = visible, depth
 	refs := g.refsFor(cols, visible)
 	allRefs := refs
 	if len(outer) > 0 && fw.Pct(g.t, "outerInFields", 35) {
@@ -805,7 +811,7 @@ func (g *genCtx) fields(cols []ref.SelCol, views map[string]int, outer []ref.Sel
 	for i, c := range cols {
 		allNames[i] = c.Name
 	}
-	if len(cols) > 0 && fw.Pct(g.t, "star", 25) && (!needLabels || namesUnique(allNames, nil)) {
+	if !one && len(cols) > 0 && fw.Pct(g.t, "star", 25) && (!needLabels || namesUnique(allNames, nil)) {
 		return []ref.SelField{{Star: true}}, allNames
 	}
 	// views whose columns are all still addressable as view.*
@@ -831,10 +837,19 @@ func (g *genCtx) fields(cols []ref.SelCol, views map[string]int, outer []ref.Sel
 			taken[n] = true
 		}
 	}
-	nf := fw.Range(g.t, "nFields", 1, 4)
+	nf := 1
+	if !one {
+		nf = fw.Range(g.t, "nFields", 1, 4)
+	}
 	for i := 0; i < nf; i++ {
+		if g.scalarFld > 0 && depth < g.maxDepth && fw.Pct(g.t, "scalarField", g.scalarFld) {
+			f := ref.SelField{Expr: g.scalarSub(visible, depth), Alias: g.label()}
+			add(f, f.Alias)
+			g.predScope, g.predDepth = visible, depth
+			continue
+		}
 		kind := fw.Weighted(g.t, "fieldKind", []int{50, 12, 16, 8, 14})
-		if kind == 1 && len(starViews) == 0 {
+		if kind == 1 && (len(starViews) == 0 || one) {
 			kind = 0
 		}
 		if len(allRefs) == 0 && kind != 1 {
@@ -898,6 +913,11 @@ func (g *genCtx) query(depth int, outer []ref.SelCol, needLabels bool) (*ref.Sel
 	default:
 		w = []int{85, 15, 0}
 	}
+	if g.deepJoins && depth > 0 {
+		w = []int{50, 42, 8}
+	}
+	one := g.wantOne
+	g.wantOne = false
 	nsrc := 1 + fw.Weighted(g.t, "nSources", w)
 	q := &ref.SelQuery{}
 	var cols []ref.SelCol
@@ -906,7 +926,7 @@ func (g *genCtx) query(depth int, outer []ref.SelCol, needLabels bool) (*ref.Sel
 	items := []int{nsrc}
 	if nsrc >= 2 && fw.Pct(g.t, "comma", 25) {
 		items = []int{nsrc - 1, 1}
-		if nsrc == 3 && fw.Pct(g.t, "comma3", 30) {
+		if nsrc == 3 && !g.noComma3 && fw.Pct(g.t, "comma3", 30) {
 			items = []int{1, 1, 1}
 		}
 	}
@@ -937,6 +957,10 @@ func (g *genCtx) query(depth int, outer []ref.SelCol, needLabels bool) (*ref.Sel
 	if len(outer) > 0 {
 		wherePct = 85
 	}
+	if g.wherePct > 0 && wherePct < g.wherePct {
+		wherePct = g.wherePct
+	}
+	g.predScope, g.predDepth = visible, depth
 	if fw.Pct(g.t, "where", wherePct) {
 		refs := g.refsFor(cols, visible)
 		if len(outer) > 0 {
@@ -958,7 +982,7 @@ func (g *genCtx) query(depth int, outer []ref.SelCol, needLabels bool) (*ref.Sel
 		}
 	}
 	var labels []string
-	q.Fields, labels = g.fields(cols, views, outer, needLabels)
+	q.Fields, labels = g.fields(cols, views, outer, needLabels, one, depth)
 	return q, labels
 }
 
@@ -973,8 +997,16 @@ func (g *genCtx) smallTables() []ref.SelTable {
 }
 
 func (g *genCtx) cte() {
-	name := fmt.Sprintf("c%d", len(g.ctes)+1)
+	g.nCTE++
+	name := fmt.Sprintf("c%d", g.nCTE)
+	if g.cteName != "" {
+		name, g.cteName = g.cteName, ""
+	}
 	g.used[name] = true
+	bodyDepth := 1
+	if g.cteDepth > 0 {
+		bodyDepth = g.cteDepth
+	}
 	intLit := func(i int) *ref.SelExpr { return litE(val.Int(int64(i))) }
 	small := g.smallTables()
 	kind := fw.Weighted(g.t, "cteKind", []int{50, 28, 22})
@@ -983,7 +1015,7 @@ func (g *genCtx) cte() {
 	}
 	switch kind {
 	case 0: // plain
-		q, labels := g.query(1, nil, true)
+		q, labels := g.query(bodyDepth, nil, true)
 		c := ref.SelCTE{Name: name, Query: q}
 		cols := labels
 		if fw.Pct(g.t, "cteCols", 45) {
@@ -1043,7 +1075,7 @@ func (g *genCtx) cte() {
 		if fw.Pct(g.t, "baseFromTable", 50) && len(e.Rows) <= 12 {
 			a := g.alias()
 			base = &ref.SelQuery{
-				From:   []*ref.SelSource{{Kind: "table", Name: e.Name, Alias: a}},
+				From:   []*ref.SelSource{g.tableSource(e, a)},
 				Where:  &ref.SelExpr{Kind: "isnull", Neg: true, Args: []*ref.SelExpr{colE(colRef{View: a, Col: src})}},
 				Fields: []ref.SelField{{Expr: colE(colRef{View: a, Col: src})}, {Expr: intLit(0)}},
 			}
@@ -1057,7 +1089,7 @@ func (g *genCtx) cte() {
 			rview = rec.Alias
 		}
 		ea := g.alias()
-		edge := &ref.SelSource{Kind: "table", Name: e.Name, Alias: ea}
+		edge := g.tableSource(e, ea)
 		link := &ref.SelExpr{Kind: "cmp", Op: "=", Args: []*ref.SelExpr{colE(colRef{View: ea, Col: src}), colE(colRef{View: rview, Col: node})}}
 		limit := &ref.SelExpr{Kind: "cmp", Op: "<", Args: []*ref.SelExpr{colE(colRef{View: rview, Col: "d"}), intLit(bound)}}
 		step := &ref.SelQuery{Fields: []ref.SelField{
@@ -1206,8 +1238,30 @@ func tablesInDomain(tables []ref.SelTable) bool {
 		return false
 	}
 	names := map[string]bool{}
+	nStdin := 0
 	for _, tb := range tables {
 		if !identRe(tb.Name) || names[tb.Name] || len(tb.Cols) < 2 {
+			return false
+		}
+		typed := false // the format carries integers as integers
+		switch tb.Format {
+		case "":
+		case "csv", "tsv":
+			if !tb.File {
+				return false
+			}
+		case "stdin":
+			nStdin++
+			if !tb.File || nStdin > 1 {
+				return false
+			}
+		case "json", "jsonl", "ltsv":
+			// no header without a record
+			if !tb.File || len(tb.Rows) == 0 {
+				return false
+			}
+			typed = tb.Format != "ltsv"
+		default:
 			return false
 		}
 		names[tb.Name] = true
@@ -1226,11 +1280,11 @@ func tablesInDomain(tables []ref.SelTable) bool {
 				switch v.K {
 				case "N":
 				case "I":
-					if tb.File || v.AsInt() < -1000 || v.AsInt() > 1000 {
+					if (tb.File && !typed) || v.AsInt() < -1000 || v.AsInt() > 1000 {
 						return false
 					}
 				case "S":
-					if len(v.S) > 4 || (v.S == "" && !tb.File) {
+					if len(v.S) > 4 || (v.S == "" && (!tb.File || tb.Format == "ltsv")) {
 						return false
 					}
 					for _, r := range v.S {
@@ -1258,10 +1312,14 @@ func openSession(tables []ref.SelTable, cpu int) (*run.Sess, func(), *fw.Violati
 	}
 	files := map[string]string{}
 	var decl strings.Builder
+	opt := run.Opt{Dir: dir, CPU: cpu}
 	for _, tb := range tables {
-		if tb.File {
-			files[tb.Name+".csv"] = csvText(tb)
-		} else {
+		switch {
+		case tb.File && tb.Format == "stdin":
+			opt.Stdin, opt.HasStdin = csvText(tb), true
+		case tb.File:
+			files[tb.Name+"."+ref.SelFileExt(tb.Format)] = fileText(tb)
+		default:
 			decl.WriteString(declareSQL(tb))
 		}
 	}
@@ -1269,7 +1327,7 @@ func openSession(tables []ref.SelTable, cpu int) (*run.Sess, func(), *fw.Violati
 		_ = os.RemoveAll(dir)
 		return nil, nil, fw.Harness("write files: %v", err)
 	}
-	s, err := run.NewSess(run.Opt{Dir: dir, CPU: cpu})
+	s, err := run.NewSess(opt)
 	if err != nil {
 		_ = os.RemoveAll(dir)
 		return nil, nil, fw.Harness("session: %v", err)
@@ -1374,20 +1432,36 @@ func sizeClass(tables []ref.SelTable) string {
 	return "small"
 }
 
-func checkCase(c selCase) (fw.Outcome, *fw.Violation) {
+func checkCase(c selCase) (fw.Outcome, *fw.Violation) { return checkSel(c, "select") }
+
+// checkSel is the oracle shared by the select check and its extensions
+// (mode: select, subquery_predicates, deep_nesting, table_sources,
+// recursive_union). The extensions put the defect shapes already reported by
+// the select check aside (they are listed in known_findings.jsonl for that
+// check) and count them.
+func checkSel(c selCase, mode string) (fw.Outcome, *fw.Violation) {
 	o := fw.Outcome{}
-	if c.Query == nil || !tablesInDomain(c.Tables) || c.CPU < 1 {
+	if c.Query == nil || !tablesInDomain(c.Tables) || c.CPU < 1 || c.Limit < 0 || c.Limit > 1000 {
+		o.Discard = true
+		return o, nil
+	}
+	if stdinTable(c.Tables) >= 0 && hasFromless(c.Query) {
 		o.Discard = true
 		return o, nil
 	}
 	sql := ref.SelSQL(c.Query)
 	// reference under the base reading of the outcomes the manual leaves open
+	limitExceeded := false
 	evalRef := func(rd ref.SelReading) (*ref.SelResult, bool, *fw.Violation) {
-		r, err := ref.SelEval(c.Tables, c.Query, rd)
+		r, err := ref.SelEvalOpt(c.Tables, c.Query, ref.SelOptions{Reading: rd, LimitRecursion: c.Limit})
 		if err != nil {
-			if se, ok := err.(*ref.SelError); ok && (se.Kind == "too_big" || se.Kind == "no_termination") {
+			if se, ok := err.(*ref.SelError); ok && (se.Kind == "too_big" || se.Kind == "no_termination" || se.Kind == "scalar_many") {
 				fw.AddExtra("discarded_"+se.Kind, 1)
 				return nil, true, nil
+			}
+			if se, ok := err.(*ref.SelError); ok && se.Kind == "recursion_limit" {
+				limitExceeded = true
+				return r, false, nil
 			}
 			return nil, false, fw.Harness("the reference cannot evaluate %s: %v", sql, err)
 		}
@@ -1399,9 +1473,20 @@ func checkCase(c selCase) (fw.Outcome, *fw.Violation) {
 		return o, hv
 	}
 	st := want.Stats
+	if st.RecLimitOpen || st.DistinctOpen {
+		// outcomes the manual leaves open (see the Assumptions of recursive_union)
+		o.Discard = true
+		if st.RecLimitOpen {
+			fw.AddExtra("discarded_limit_boundary_open", 1)
+		} else {
+			fw.AddExtra("discarded_union_representative_open", 1)
+		}
+		return o, nil
+	}
 	commaDefect := commaListDefectShape(c.Query)
 	bindsRight := joinBindsRightShape(c.Query, false)
-	if (avoidKnownJoinBindsRight && bindsRight) || (avoidKnownLateralEmptyLeft && st.LateralEmptyLeft) || (avoidKnownStarDuplicateUsingColumn && st.DupJoinStar) || (avoidKnownCommaListSyntax && commaDefect) {
+	avoid := mode != "select"
+	if ((avoidKnownJoinBindsRight || avoid) && bindsRight) || ((avoidKnownLateralEmptyLeft || avoid) && st.LateralEmptyLeft) || ((avoidKnownStarDuplicateUsingColumn || avoid) && st.DupJoinStar) || ((avoidKnownCommaListSyntax || avoid) && commaDefect) {
 		o.Discard = true
 		fw.AddExtra("discarded_known_defect_shape", 1)
 		return o, nil
@@ -1431,11 +1516,18 @@ func checkCase(c selCase) (fw.Outcome, *fw.Violation) {
 		o.Classes = append(o.Classes, "padded_rows")
 	}
 
+	o.Classes = append(o.Classes, extClasses(c, mode, st, limitExceeded)...)
+
 	s, cleanup, hv := openSession(c.Tables, c.CPU)
 	if hv != nil {
 		return o, hv
 	}
 	defer cleanup()
+	if c.Limit > 0 {
+		if r := s.Exec(fmt.Sprintf("SET @@LIMIT_RECURSION TO %d;", c.Limit)); r.Err != nil {
+			return o, fw.Harness("set limit: %v", r.Err)
+		}
+	}
 	par0 := atomic.LoadInt64(&query.VerifParallelTasks)
 	res := s.Exec(sql)
 	if atomic.LoadInt64(&query.VerifParallelTasks) > par0 {
@@ -1447,6 +1539,19 @@ func checkCase(c selCase) (fw.Outcome, *fw.Violation) {
 	}
 	if res.ParseErr {
 		return o, fw.Harness("generated query does not parse: %s: %v", sql, res.Err)
+	}
+	if _, isLimit := res.Err.(*query.RecursionExceededLimitError); isLimit || limitExceeded {
+		switch {
+		case isLimit && limitExceeded:
+			o.Fingerprint = extFingerprint(c, mode, st, true)
+			o.Classes = append(o.Classes, "nontrivial")
+			return o, nil
+		case isLimit:
+			return o, fw.V("recursion_limit_premature", "%s with @@LIMIT_RECURSION %d: %v, but the recursive member is executed only %d times with a result and once without", sql, c.Limit, res.Err, st.RecSteps)
+		case res.Err == nil:
+			return o, fw.V("recursion_limit_not_enforced", "%s with @@LIMIT_RECURSION %d: a result of %d rows although the recursive member yields rows more than %d times", sql, c.Limit, nRows(res), c.Limit)
+		}
+		return o, fw.V("recursion_limit_other_error", "%s with @@LIMIT_RECURSION %d: %v instead of the limit error", sql, c.Limit, res.Err)
 	}
 	special := func(sig string) string {
 		switch {
@@ -1477,6 +1582,15 @@ func checkCase(c selCase) (fw.Outcome, *fw.Violation) {
 	for _, r := range got.Rows {
 		if len(r) != len(want.Labels) {
 			return o, fw.V(special("field_count"), "%s: a row has %d fields, expected %d", sql, len(r), len(want.Labels))
+		}
+	}
+	for _, r := range got.Rows {
+		for i, v := range r {
+			// numbers of JSON files are floats: -1 * 0 is the float -0 (number
+			// formatting belongs to C07, not to the relational operators)
+			if v.K == "F" && v.S == "-0" {
+				r[i] = val.Float(0)
+			}
 		}
 	}
 	sig, msg := compareRows(got.Rows, want.Rows, want.Ordered)
@@ -1510,6 +1624,13 @@ func checkCase(c selCase) (fw.Outcome, *fw.Violation) {
 	// non-trivial: >=1 join or nested query, a non-empty result and (for outer
 	// joins) a padded row; or a WHERE keeping a strict non-empty subset
 	structural := (hasJoin || hasNested) && len(want.Rows) > 0 && (!hasOuter || st.Padded > 0)
+	if mode != "select" {
+		if fp := extFingerprint(c, mode, st, false); fp != "" && (len(want.Rows) > 0 || st.WhereStrict) {
+			o.Fingerprint = fp
+			o.Classes = append(o.Classes, "nontrivial")
+		}
+		return o, nil
+	}
 	if structural || (st.WhereStrict && len(want.Rows) > 0) {
 		o.Fingerprint = fmt.Sprintf("%s|d%d|%s|padded%v", strings.Join(ops, ","), depth, size, st.Padded > 0)
 		o.Classes = append(o.Classes, "nontrivial")
